@@ -412,8 +412,17 @@ func scenario(rng *vh.Rng, idx int, kind string, base string) Rec {
 				}
 			}()
 		}
-		// give the senders a moment, then let the held plot end and ask a query
+		// give the senders a moment, then let the held plot end and ask a query - or (every other scenario) stop the
+		// keeper while the plot is still held and the requests are still outstanding
 		time.Sleep(20 * time.Millisecond)
+		if idx%20 >= 10 {
+			rec.Params += " stop-while-plot-held"
+			wg.Add(1)
+			go func() { defer wg.Done(); tr.do("Stop (plot held, requests outstanding)", func() { sk.Stop() }) }()
+			if !waitAll(&rec, tr, &wg) {
+				break
+			}
+		}
 		db.StopPlot()
 		wg.Add(1)
 		go func() { defer wg.Done(); tr.do("WorkSpaceInfos", func() { sk.WorkSpaceInfos(engine.SFAll) }) }()
